@@ -4,7 +4,7 @@
    Model: Model/NameFormat.v (pybtex/bibtex/names.py, builtins.py format.name$);
    independent definitions (balanced, level1_letter_runs, legal_group, interleave, seps_rule): Spec/NameFormat.v. *)
 From Pybtex Require Import Base.Prelude Base.PyChar Base.PyStr Model.BibtexStr Model.Names Model.NameFormat
-  Spec.NameFormat Proofs.NameFormatParse Proofs.NameFormatFmt Proofs.NameFormatGrammar.
+  Spec.NameFormat Proofs.NameFormatParse Proofs.NameFormatFmt Proofs.NameFormatGrammar Proofs.NameFormatAbbrev.
 
 (* the format parser terminates within its fuel and raises no foreign exception: every string
    is either parsed or rejected with a pybtex error *)
@@ -110,6 +110,14 @@ Theorem letters_and_ties : forall pre v dl q, format_chars_ok false v = true -> 
 Proof. exact letters_and_ties_thm. Qed.
 Print Assumptions letters_and_ties.
 
+(* hyphen-aware abbreviation: for a word without an opening brace, the first letters of the
+   non-empty hyphen-separated pieces, joined by the part's delimiter (".-" by default) *)
+Theorem abbrev_hyphen : forall w d, no_lbrace w = true ->
+  bibtex_abbreviate w d =
+  Ok (join (delim_or_default d) (filter nonempty (map (fun piece => first_alpha (strip piece)) (split_char c_hyphen w [])))).
+Proof. exact abbrev_hyphen_thm. Qed.
+Print Assumptions abbrev_hyphen.
+
 (* ---- non-vacuity ---- *)
 Example unbalanced_example : ~ balanced (s2l "{ff") /\ ~ balanced (s2l "ff}") /\ balanced (s2l "{{x}ff{.}~}").
 Proof. unfold balanced. vm_compute. repeat split; congruence. Qed.
@@ -150,3 +158,7 @@ Example group_example :
   parse_format (s2l "x{{a}FF{-}, ~}") =
   Ok [PText (s2l "x"); PName (mkNP (s2l "{a}") (Some 102%N) false (Some (s2l "-")) (s2l ", ") 1)].
 Proof. vm_compute. reflexivity. Qed.
+Example abbrev_example :
+  bibtex_abbreviate (s2l "Jean-Pierre") None = Ok (s2l "J.-P") /\ bibtex_abbreviate (s2l "Jean--Pierre") (Some []) = Ok (s2l "JP")
+  /\ no_lbrace (s2l "Jean-Pierre") = true.
+Proof. vm_compute. auto. Qed.
